@@ -23,24 +23,27 @@ class YowNotificationsProtocolLayer(YowProtocolLayer):
             self.toLower(entity.toProtocolTreeNode())
 
     def recvNotification(self, node):
-        if node["type"] == "picture":
-            if node.getChild("set"):
-                self.toUpper(SetPictureNotificationProtocolEntity.fromProtocolTreeNode(node))
-            elif node.getChild("delete"):
-                self.toUpper(DeletePictureNotificationProtocolEntity.fromProtocolTreeNode(node))
-            else:
-                self.raiseErrorForNode(node)
-        elif node["type"] == "status":
-            self.toUpper(StatusNotificationProtocolEntity.fromProtocolTreeNode(node))
-        elif node["type"] in ["contacts", "subject", "w:gp2"]:
-            # Implemented in respectively the protocol_contacts and protocol_groups layer
-            pass
-        else:
-            logger.warning("Unsupported notification type: %s " % node["type"])
-            logger.debug("Unsupported notification node: %s" % node)
+        if node["type"] == "picture" and not node.getChild("set") and not node.getChild("delete"):
+            self.raiseErrorForNode(node)
 
-        ack = OutgoingAckProtocolEntity(node["id"], "notification", node["type"], node["from"], participant=node["participant"])
-        self.toLower(ack.toProtocolTreeNode())
+        try:
+            if node["type"] == "picture":
+                if node.getChild("set"):
+                    self.toUpper(SetPictureNotificationProtocolEntity.fromProtocolTreeNode(node))
+                else:
+                    self.toUpper(DeletePictureNotificationProtocolEntity.fromProtocolTreeNode(node))
+            elif node["type"] == "status":
+                self.toUpper(StatusNotificationProtocolEntity.fromProtocolTreeNode(node))
+            elif node["type"] in ["contacts", "subject", "w:gp2"]:
+                # Implemented in respectively the protocol_contacts and protocol_groups layer
+                pass
+            else:
+                logger.warning("Unsupported notification type: %s " % node["type"])
+                logger.debug("Unsupported notification node: %s" % node)
+        finally:
+            # acknowledged also when its entity could not be parsed: the server repeats a notification until it is
+            ack = OutgoingAckProtocolEntity(node["id"], "notification", node["type"], node["from"], participant=node["participant"])
+            self.toLower(ack.toProtocolTreeNode())
 
 
 
